@@ -32,8 +32,8 @@ ASSUMPTIONS = ["contractive / convex problem families (|s|<=0.5, |W|~0.5) so eve
                "tolerances: 1e-8 relative to the gradient scale for direct functionals, 1e-6 for iterative ones "
                "(their stopping tolerance is 1e-11)"]
 BUDGET = {"quick": {"worker_timeout": 900, "case_timeout": 180}, "thorough": {"worker_timeout": 3300, "case_timeout": 300}}
-REQUIRED_COUNTERS = {"quick": {"repeat_backward_compared": 60, "extra_shared_object_compared": 20, "late_backward_compared": 30, "history_grad2_compared": 150, "abort_reuse_compared": 40, "refreeze_stages": 100, "second_order_compared": 1500, "objparams_substitutions": 5000},
-                     "thorough": {"repeat_backward_compared": 240, "extra_shared_object_compared": 200, "late_backward_compared": 300, "history_grad2_compared": 1500, "abort_reuse_compared": 400, "refreeze_stages": 1000, "second_order_compared": 9000, "objparams_substitutions": 30000}}
+REQUIRED_COUNTERS = {"quick": {"sibling_rebind_compared": 15, "repeat_backward_compared": 60, "extra_shared_object_compared": 20, "late_backward_compared": 30, "history_grad2_compared": 150, "abort_reuse_compared": 40, "refreeze_stages": 100, "second_order_compared": 1500, "objparams_substitutions": 5000},
+                     "thorough": {"sibling_rebind_compared": 150, "repeat_backward_compared": 240, "extra_shared_object_compared": 200, "late_backward_compared": 300, "history_grad2_compared": 1500, "abort_reuse_compared": 400, "refreeze_stages": 1000, "second_order_compared": 9000, "objparams_substitutions": 30000}}
 
 FNAMES = list(funcs.FUNCTIONALS) + ["mcquad:mh"]
 
